@@ -154,7 +154,10 @@ func negotiateFeatures(ctx context.Context, s *Session, first, ws bool, features
 		// is in the features list to be negotiated) and we're not already on a
 		// secure connection, try it anyways to prevent downgrade attacks per RFC
 		// 7590.
-		doStartTLS = first && !advertisedStartTLS && s.State()&Secure != Secure && doStartTLS
+		// Like any other feature it is only attempted if it can be negotiated at
+		// all and its masks allow it in the current state.
+		doStartTLS = first && !advertisedStartTLS && s.State()&Secure != Secure && doStartTLS &&
+			startTLS.Negotiate != nil && startTLS.allowed(s.state)
 
 		switch {
 		case doStartTLS:
